@@ -11,6 +11,9 @@ if [ "$4" = r3 ]; then ROOT=/tmp/seed3; NS="5 6"; fi
 if [ "$4" = r4 ]; then ROOT=/tmp/seed4; NS="7 8"; fi
 if [ "$4" = r5 ]; then ROOT=/tmp/seed5; NS="9 10"; fi
 if [ "$4" = r6 ]; then ROOT=/tmp/seed6; NS="11 12"; fi
+if [ "$4" = r7 ]; then ROOT=/tmp/seed7; NS="13 14"; fi
+if [ "$4" = r8 ]; then ROOT=/tmp/seed8; NS="15 16"; fi
+if [ "$4" = r9 ]; then ROOT=/tmp/seed9; NS="17 18"; fi
 for n in $NS; do
   [ -f $ROOT/$P/out/patch-$n.diff ] || { echo "no patch-$n for $P" > /verif/.build/sc-$P-$n.log; continue; }
   FEATURES=$SEEDFEATURES SEEDROOT=$ROOT /verif/tools/seed_confirm.sh $P $n $CR $PR > /verif/.build/sc-$P-$n.log 2>&1
